@@ -292,7 +292,52 @@ def translate(repo):
     out.append('Definition call_options_gen : list (field * src_ feature) := [%s].' % '; '.join(call_options))
     out.append('Definition standard_gen : list (field * src_ feature) := [%s].' % '; '.join(standard))
     out.append('Definition to_ast_gen : list (field * tkind * field) := [%s].' % '; '.join(to_ast))
+    out.append('Definition cache_key_gen : list field := [%s].' % '; '.join(cache_key_fields(repo, as_tuple)))
     return '\n'.join(out) + '\n'
+
+
+def cache_key_fields(repo, as_tuple):
+    """malt/impl/api.py PyToPy.get_caching_key: the sub-key under which converted code is cached per code object.
+    Recognised: `return ctx.options` (the whole value: compared through __eq__, i.e. the fields of as_tuple), or a
+    tuple of attributes of ctx.options (directly or through one local alias)."""
+    path = os.path.join(repo, 'malt', 'impl', 'api.py')
+    with open(path) as f:
+        tree = ast.parse(f.read())
+    fn = None
+    for n in tree.body:
+        if isinstance(n, ast.ClassDef) and n.name == 'PyToPy':
+            for m in n.body:
+                if isinstance(m, ast.FunctionDef) and m.name == 'get_caching_key':
+                    fn = m
+    if fn is None:
+        raise Untranslatable('untranslatable: api.py: PyToPy.get_caching_key not found')
+    if [a.arg for a in fn.args.args] != ['self', 'ctx']:
+        _fail(fn, 'get_caching_key parameters')
+    body = [st for st in fn.body if not (isinstance(st, ast.Expr) and isinstance(st.value, ast.Constant))]
+    alias = None
+
+    def is_options(e):
+        if isinstance(e, ast.Attribute) and e.attr == 'options' and isinstance(e.value, ast.Name) and e.value.id == 'ctx':
+            return True
+        return alias is not None and isinstance(e, ast.Name) and e.id == alias
+    if len(body) == 2 and isinstance(body[0], ast.Assign) and len(body[0].targets) == 1 and isinstance(body[0].targets[0], ast.Name) \
+            and is_options(body[0].value):
+        alias = body[0].targets[0].id
+        body = body[1:]
+    if len(body) != 1 or not isinstance(body[0], ast.Return) or body[0].value is None:
+        _fail(fn, 'get_caching_key body shape')
+    v = body[0].value
+    if is_options(v):
+        return list(as_tuple)
+    if isinstance(v, ast.Tuple):
+        out = []
+        for e in v.elts:
+            if isinstance(e, ast.Attribute) and is_options(e.value) and e.attr in FIELD:
+                out.append(FIELD[e.attr])
+            else:
+                _fail(e, 'get_caching_key tuple element ' + ast.dump(e))
+        return out
+    _fail(v, 'get_caching_key return value ' + ast.dump(v))
 
 
 if __name__ == '__main__':
